@@ -1,4 +1,5 @@
 import Pcore.Proofs.ObjectDefine
+import Mathlib.Data.List.Perm.Subperm
 /-!
 # C17 — Object types: constructors, init-hash, equality and inheritance cohere
 
@@ -23,14 +24,16 @@ Full statement / proved / missing
 * `C17_pos_named`      — proved: `newNamed t (toHash t vs)` succeeds and is `equals` to `newPos t vs` (both directions), and
                          denotes the same value at EVERY position (not only the ones Equals looks at).
 * `C17_inithash`       — proved: `newNamed t (initHash o)` succeeds, is `equals` to `o`, same value at every position.
-* `C17_equality_partial` — proved for objects whose types are the same whenever `Equals` calls them equal (a name identifies a
-                         type within a loader): `equals o o' = true ↔ tyEq ∧ ∀ a ∈ eqAttrNames t, get o a = get o' a`;
-                         `equals` never faults (`C17_equals_total`).  `eqAttrNames` = the equality lists declared through the
-                         chain that have a position (after the fixes: a derived / unlisted attribute is skipped, an explicitly
-                         empty list is a declaration), or every positional attribute when none is declared.
-                         FULL statement `C17_equality_full` (with `equality_include_type => false` the types need not be
-                         equal) is FALSE of model and code: `C17_include_type_ignored`, `C17_equality_full_false` (known
-                         finding C17-equality-include-type).
+* `C17_equality`       — proved at FULL strength (after the fix 2607361 "equality_include_type => false was ignored"):
+                         `equals o o' = true ↔ (types Equal ∧ ∀ a ∈ eqAttrNames t, get o a = get o' a) ∨ (types differ ∧
+                         both say equality_include_type => false ∧ both compare equally many attributes ∧ every equality
+                         attribute of `o`'s type is one of `o'`'s type with the same value)`; `equals` never faults
+                         (`C17_equals_total`); the relation is symmetric (`C17_equality_symmetric`: the name lists are
+                         duplicate-free, so "equally many and included" is "the same set").  `eqAttrNames` = the equality
+                         lists declared through the chain, each name once, that have a position (a derived / unlisted
+                         attribute is skipped, an explicitly empty list is a declaration), or every positional attribute
+                         when none is declared.  Hypothesis `hname`: a name identifies a type within a loader (`tyEq` implies
+                         same type).  `C17_include_type_honoured`: the former known finding, replayed in the model.
 * `C17_subtype`        — proved: an ancestor (any non-empty suffix of the level list) accepts every instance;
                          `C17_subtype_strict`: a type never accepts an instance of a proper ancestor.
 * `C17_schema_partial` — proved at model level: every `WellFormedDef` (attributes well-formed on their own and not clashing
@@ -265,87 +268,155 @@ theorem C17_inithash {o : Obj} (h : Val) (hw : WF o.typ) (hv : Valid o) :
 
 /-! ### objects compare equal exactly when their declared equality attributes are equal -/
 
-theorem C17_equals_total {o o' : Obj} (hw : WF o.typ) (hv : Valid o) (hv' : Valid o')
+theorem C17_equals_total {o o' : Obj} (hw : WF o.typ) (hw' : WF o'.typ) (hv : Valid o) (hv' : Valid o')
     (hname : tyEq o.typ o'.typ = true → o'.typ = o.typ) : ∃ b, equals o o' = .ok b := by
-  by_cases ht : tyEq o.typ o'.typ = true
-  · obtain ⟨t, vs⟩ := o
-    obtain ⟨t', vs'⟩ := o'
-    have := hname ht
-    simp only at this hw hv hv'
+  obtain ⟨t, vs⟩ := o
+  obtain ⟨t', vs'⟩ := o'
+  simp only at hw hw' hv hv' hname ⊢
+  by_cases ht : tyEq t t' = true
+  · have := hname ht
     subst this
     exact ⟨_, equals_den hw.tailOpt hv.req hv'.req⟩
-  · exact ⟨false, by unfold equals; simp [ht]⟩
+  · exact ⟨_, equals_cross (by simpa using ht) hw.tailOpt hw'.tailOpt hv.req hv'.req⟩
 
-theorem C17_equality_partial {o o' : Obj} (hw : WF o.typ) (hv : Valid o) (hv' : Valid o')
+/-- objects of ONE type: equal exactly when `Get` agrees on every equality attribute -/
+theorem equality_same {t : OType} {vs vs' : List Val} (hw : WF t) (hv : Valid { typ := t, values := vs })
+    (hv' : Valid { typ := t, values := vs' }) :
+    equals { typ := t, values := vs } { typ := t, values := vs' } = .ok true ↔
+      ∀ n ∈ eqAttrNames t, get { typ := t, values := vs } n = get { typ := t, values := vs' } n := by
+  rw [equals_den hw.tailOpt hv.req hv'.req]
+  simp only [Except.ok.injEq, List.all_eq_true, beq_iff_eq]
+  constructor
+  · intro hall n hn
+    obtain ⟨i, hi⟩ := eqAttrNames_pos hw.nodup hn
+    obtain ⟨a, ha, han⟩ := nameToPos_get hi
+    subst han
+    have hmem : i ∈ eqPositions t := (mem_eqPositions hw.nodup).mpr ⟨_, hn, hi⟩
+    rw [get_pos hw.nodup hw.tailOpt hv.req ha, get_pos hw.nodup hw.tailOpt hv'.req ha, hall i hmem]
+  · intro hget i hi
+    obtain ⟨n, hn, hpos⟩ := (mem_eqPositions hw.nodup).mp hi
+    obtain ⟨a, ha, han⟩ := nameToPos_get hpos
+    subst han
+    have := hget _ hn
+    rw [get_pos hw.nodup hw.tailOpt hv.req ha, get_pos hw.nodup hw.tailOpt hv'.req ha] at this
+    exact Except.ok.inj this
+
+/-- objects of DIFFERENT types: equal exactly when both types leave the type out of equality, compare equally many
+    attributes, and every equality attribute of the receiver is an equality attribute of the other type with the same value
+    (looked up by name) -/
+theorem equality_cross {t t' : OType} {vs vs' : List Val} (hne : tyEq t t' = false) (hw : WF t) (hw' : WF t')
+    (hv : Valid { typ := t, values := vs }) (hv' : Valid { typ := t', values := vs' }) :
+    equals { typ := t, values := vs } { typ := t', values := vs' } = .ok true ↔
+      (includesType t = false ∧ includesType t' = false ∧ (eqAttrNames t).length = (eqAttrNames t').length ∧
+        ∀ n ∈ eqAttrNames t, n ∈ eqAttrNames t' ∧
+          get { typ := t, values := vs } n = get { typ := t', values := vs' } n) := by
+  rw [equals_cross hne hw.tailOpt hw'.tailOpt hv.req hv'.req]
+  simp only [Except.ok.injEq, Bool.and_eq_true, Bool.not_eq_true', Bool.or_eq_false_iff, beq_iff_eq,
+    List.all_eq_true, eqPositions_length]
+  constructor
+  · rintro ⟨⟨⟨h1, h2⟩, hl⟩, hall⟩
+    refine ⟨h1, h2, hl, ?_⟩
+    intro n hn
+    obtain ⟨i, hi⟩ := eqAttrNames_pos hw.nodup hn
+    obtain ⟨a, ha, han⟩ := nameToPos_get hi
+    subst han
+    have hstep := hall i ((mem_eqPositions hw.nodup).mpr ⟨_, hn, hi⟩)
+    unfold crossStep at hstep
+    simp only [ha] at hstep
+    cases hj : nameToPos (posAttrs t') a.name with
+    | none => simp [hj] at hstep
+    | some j =>
+      simp only [hj, Bool.and_eq_true, List.contains_eq_mem, decide_eq_true_eq, beq_iff_eq] at hstep
+      obtain ⟨hmem, hden⟩ := hstep
+      obtain ⟨m, hm, hmj⟩ := (mem_eqPositions hw'.nodup).mp hmem
+      obtain ⟨b, hb, hbm⟩ := nameToPos_get hmj
+      obtain ⟨b', hb', hbn⟩ := nameToPos_get hj
+      have : m = a.name := by rw [← hbm, ← hbn]; rw [hb] at hb'; cases hb'; rfl
+      subst this
+      refine ⟨hm, ?_⟩
+      rw [get_pos hw.nodup hw.tailOpt hv.req ha, hden]
+      have := get_pos hw'.nodup hw'.tailOpt hv'.req (vs := vs') hb'
+      rw [hbn] at this
+      exact this.symm
+  · rintro ⟨h1, h2, hl, hall⟩
+    refine ⟨⟨⟨h1, h2⟩, hl⟩, ?_⟩
+    intro i hi
+    obtain ⟨n, hn, hpos⟩ := (mem_eqPositions hw.nodup).mp hi
+    obtain ⟨a, ha, han⟩ := nameToPos_get hpos
+    subst han
+    obtain ⟨hn', hget⟩ := hall _ hn
+    obtain ⟨j, hj⟩ := eqAttrNames_pos hw'.nodup hn'
+    obtain ⟨b', hb', hbn⟩ := nameToPos_get hj
+    have hmem : j ∈ eqPositions t' := (mem_eqPositions hw'.nodup).mpr ⟨_, hn', hj⟩
+    unfold crossStep
+    simp only [ha, hj, Bool.and_eq_true, List.contains_eq_mem, decide_eq_true_eq, beq_iff_eq]
+    refine ⟨hmem, ?_⟩
+    have h2' := get_pos hw'.nodup hw'.tailOpt hv'.req (vs := vs') hb'
+    rw [hbn] at h2'
+    rw [get_pos hw.nodup hw.tailOpt hv.req ha, h2'] at hget
+    exact Except.ok.inj hget
+
+/-- FULL statement (after the fix "equality_include_type => false was ignored by Equals").  Objects compare equal exactly
+    when their equality attributes are equal: for one type by `equality_same`; across types only when BOTH types say
+    `equality_include_type => false` and compare the same attributes.  `hname`: a name identifies a type within a loader. -/
+theorem C17_equality {o o' : Obj} (hw : WF o.typ) (hw' : WF o'.typ) (hv : Valid o) (hv' : Valid o')
     (hname : tyEq o.typ o'.typ = true → o'.typ = o.typ) :
-    equals o o' = .ok true ↔ (tyEq o.typ o'.typ = true ∧ ∀ n ∈ eqAttrNames o.typ, get o n = get o' n) := by
-  by_cases ht : tyEq o.typ o'.typ = true
-  · obtain ⟨t, vs⟩ := o
-    obtain ⟨t', vs'⟩ := o'
-    have := hname ht
-    simp only at this hw hv hv' ht ⊢
+    equals o o' = .ok true ↔
+      ((tyEq o.typ o'.typ = true ∧ ∀ n ∈ eqAttrNames o.typ, get o n = get o' n) ∨
+       (tyEq o.typ o'.typ = false ∧ includesType o.typ = false ∧ includesType o'.typ = false ∧
+          (eqAttrNames o.typ).length = (eqAttrNames o'.typ).length ∧
+          ∀ n ∈ eqAttrNames o.typ, n ∈ eqAttrNames o'.typ ∧ get o n = get o' n)) := by
+  obtain ⟨t, vs⟩ := o
+  obtain ⟨t', vs'⟩ := o'
+  simp only at hw hw' hv hv' hname ⊢
+  by_cases ht : tyEq t t' = true
+  · have := hname ht
     subst this
-    rw [equals_den hw.tailOpt hv.req hv'.req]
-    simp only [ht, true_and, Except.ok.injEq, List.all_eq_true, beq_iff_eq]
-    constructor
-    · intro hall n hn
-      have hsome : (nameToPos (posAttrs t') n).isSome = true := by
-        unfold eqAttrNames at hn
-        by_cases hd : equalityDeclared t' = true
-        · simp only [hd, if_true, List.mem_filter] at hn; exact hn.2
-        · simp only [hd, Bool.false_eq_true, if_false, List.mem_map] at hn
-          obtain ⟨a, ha, rfl⟩ := hn
-          obtain ⟨i, hi⟩ := List.getElem?_of_mem ha
-          simp [nameToPos_of_nodup hw.nodup hi]
-      obtain ⟨i, hi⟩ := Option.isSome_iff_exists.mp hsome
-      obtain ⟨a, ha, han⟩ := nameToPos_get hi
-      subst han
-      have hmem : i ∈ eqPositions t' := (mem_eqPositions hw.nodup).mpr ⟨_, hn, hi⟩
-      rw [get_pos hw.nodup hw.tailOpt hv.req ha, get_pos hw.nodup hw.tailOpt hv'.req ha, hall i hmem]
-    · intro hget i hi
-      obtain ⟨n, hn, hpos⟩ := (mem_eqPositions hw.nodup).mp hi
-      obtain ⟨a, ha, han⟩ := nameToPos_get hpos
-      subst han
-      have := hget _ hn
-      rw [get_pos hw.nodup hw.tailOpt hv.req ha, get_pos hw.nodup hw.tailOpt hv'.req ha] at this
-      exact Except.ok.inj this
-  · constructor
-    · intro h; unfold equals at h; simp [ht] at h
-    · intro h; exact absurd h.1 ht
+    rw [equality_same hw hv hv']
+    simp [ht]
+  · have hf : tyEq t t' = false := by simpa using ht
+    rw [equality_cross hf hw hw' hv hv']
+    simp [hf]
 
-/-- FULL statement: with `equality_include_type => false` the types need not be equal.  False: see below. -/
-def C17_equality_full : Prop :=
-  ∀ o o' : Obj, WF o.typ → WF o'.typ → Valid o → Valid o' →
-    (equals o o' = .ok true ↔
-      (((o.typ.head?.map (·.includeType)).getD true = true → tyEq o.typ o'.typ = true) ∧
-        ∀ n ∈ eqAttrNames o.typ, get o n = get o' n))
+/-- the compared name lists are duplicate-free, so "equally many and every one of the receiver's is one of the other's"
+    says that both types compare the same SET of attributes: the relation is symmetric -/
+theorem C17_equality_symmetric {o o' : Obj} (hw : WF o.typ) (hw' : WF o'.typ) (hv : Valid o) (hv' : Valid o')
+    (hname : tyEq o.typ o'.typ = true → o'.typ = o.typ) (hname' : tyEq o'.typ o.typ = true → o.typ = o'.typ)
+    (hsym : tyEq o.typ o'.typ = tyEq o'.typ o.typ) (h : equals o o' = .ok true) : equals o' o = .ok true := by
+  rw [C17_equality hw hw' hv hv' hname] at h
+  rw [C17_equality hw' hw hv' hv hname']
+  rcases h with ⟨ht, hall⟩ | ⟨ht, h1, h2, hl, hall⟩
+  · left
+    have hT := hname ht
+    refine ⟨hsym ▸ ht, ?_⟩
+    intro n hn
+    rw [hT] at hn
+    exact (hall n hn).symm
+  · right
+    refine ⟨hsym ▸ ht, h2, h1, hl.symm, ?_⟩
+    -- an injective map between duplicate-free lists of equal length is onto
+    have hsub : ∀ n ∈ eqAttrNames o.typ, n ∈ eqAttrNames o'.typ := fun n hn => (hall n hn).1
+    have honto : ∀ n ∈ eqAttrNames o'.typ, n ∈ eqAttrNames o.typ := by
+      have hnd := eqAttrNames_nodup hw.nodup
+      have hnd' := eqAttrNames_nodup hw'.nodup
+      have hsubl : (eqAttrNames o.typ).Subperm (eqAttrNames o'.typ) := hnd.subperm (fun n hn => hsub n hn)
+      have hperm := hsubl.perm_of_length_le (by omega)
+      intro n hn
+      exact hperm.mem_iff.mpr hn
+    intro n hn
+    have hn' := honto n hn
+    exact ⟨hn', ((hall n hn').2).symm⟩
 
 def lvA (id : Nat) : Level :=
   { id := id, attrs := [{ name := "a", ty := .int, kind := .normal, value := none }], equality := none,
     includeType := false, serialization := none }
 
-/-- known finding C17-equality-include-type: two identically shaped types (different names) with
-    `equality_include_type => false`, equal attribute values — `Equals` still answers false -/
-theorem C17_include_type_ignored :
-    equals { typ := [lvA 0], values := [.int 1] } { typ := [lvA 1], values := [.int 1] } = .ok false ∧
-    get { typ := [lvA 0], values := [.int 1] } "a" = get { typ := [lvA 1], values := [.int 1] } "a" := by
+/-- the former known finding C17-equality-include-type, now repaired: two identically shaped types (different names) with
+    `equality_include_type => false` and equal attribute values are Equal; with a different value they are not -/
+theorem C17_include_type_honoured :
+    equals { typ := [lvA 0], values := [.int 1] } { typ := [lvA 1], values := [.int 1] } = .ok true ∧
+    equals { typ := [lvA 0], values := [.int 1] } { typ := [lvA 1], values := [.int 2] } = .ok false := by
   constructor <;> rfl
-
-theorem wf_lvA (id : Nat) : WF [lvA id] :=
-  wf_noSerialization ⟨by simp [eachAttribute, lvA], by
-    intro a ha
-    simp [eachAttribute, lvA] at ha
-    subst ha
-    intro hk; cases hk⟩ rfl
-
-/-- the full statement is false (of the model, and — replayed by the harness — of the code) -/
-theorem C17_equality_full_false : ¬ C17_equality_full := by
-  intro h
-  have h1 := (h { typ := [lvA 0], values := [.int 1] } { typ := [lvA 1], values := [.int 1] }
-    (wf_lvA 0) (wf_lvA 1) ⟨by decide, rfl⟩ ⟨by decide, rfl⟩).mpr
-      ⟨by intro hc; exact absurd hc (by decide), by intro n _; rfl⟩
-  rw [C17_include_type_ignored.1] at h1
-  cases h1
 
 /-! ### an instance of a subtype is an instance of every ancestor and never the reverse -/
 
@@ -468,10 +539,24 @@ example : ∃ o', newNamed sampleT2 [("a", .int 1)] (.hash "") = .ok o' ∧
     equals { typ := sampleT2, values := [.int 1] } o' = .ok true := by
   obtain ⟨o', h1, _, h2, _⟩ := C17_pos_named (.hash "") sampleWF (rfl : newPos sampleT2 [.int 1] = .ok _)
   exact ⟨o', h1, h2⟩
-/-- hypotheses of `C17_inithash` / `C17_equality_partial`: an object with a default-valued and a non-default trailing value -/
+/-- hypotheses of `C17_inithash` / `C17_equality`: an object with a default-valued and a non-default trailing value -/
 example : Valid { typ := sampleT2, values := [.int 1, .bool true, .str "x"] } := ⟨by decide, rfl⟩
 example : initHash { typ := sampleT2, values := [.int 1, .bool true, .str "x"] } = [("a", .int 1), ("b", .str "x")] := rfl
 example : eqAttrNames sampleT2 = ["c", "a"] := rfl
+/-- hypotheses of the cross-type half of `C17_equality`: two types that are not Equal, both well laid out, both leaving the
+    type out of equality -/
+theorem wf_lvA (id : Nat) : WF [lvA id] :=
+  wf_noSerialization ⟨by simp [eachAttribute, lvA], by
+    intro a ha
+    simp [eachAttribute, lvA] at ha
+    subst ha
+    intro hk; cases hk⟩ rfl
+example : tyEq [lvA 0] [lvA 1] = false ∧ includesType [lvA 0] = false ∧ includesType [lvA 1] = false ∧
+    eqAttrNames [lvA 0] = ["a"] ∧ eqAttrNames [lvA 1] = ["a"] := ⟨rfl, rfl, rfl, rfl, rfl⟩
+example : equals { typ := [lvA 1], values := [.int 1] } { typ := [lvA 0], values := [.int 1] } = .ok true :=
+  C17_equality_symmetric (wf_lvA 0) (wf_lvA 1) ⟨by decide, rfl⟩ ⟨by decide, rfl⟩
+    (by intro h; cases h) (by intro h; cases h) rfl C17_include_type_honoured.1
+
 /-- hypotheses of `C17_subtype` / `C17_subtype_strict`: the grand-parent is a proper ancestor -/
 example : sampleT0 ≠ [] ∧ sampleT0 <:+ sampleT2 ∧ sampleT0 ≠ sampleT2 :=
   ⟨by decide, ⟨sampleT2.take 2, rfl⟩, by decide⟩
